@@ -74,80 +74,52 @@ func runC17(c *core.Ctx) {
 		c.Undecided("ord-constants", "ord.LT/EQ/GT", 0, "constants not found")
 	}
 
-	// ---- ord.Compare decision tree
-	if fn := c.W.Method("pure/ord", "ord", "Compare"); fn == nil {
-		c.Undecided("ord-decision-tree", "ord.ord.Compare", 0, "anchor not found")
-	} else if okConst {
-		an := c.Analyze(fn)
-		if !problems(c, "ord-decision-tree", "ord.ord.Compare", an) {
-			a, b := fn.Params[len(fn.Params)-2], fn.Params[len(fn.Params)-1]
-			isA := func(t *ir.Term) bool { return t.Op == "param" && t.Src == ssa.Value(a) }
-			isB := func(t *ir.Term) bool { return t.Op == "param" && t.Src == ssa.Value(b) }
-			want := map[string]int64{"lt": cv["LT"], "eq": cv["EQ"], "gt": cv["GT"]}
-			ok := len(an.Headers) == 0
-			why := ""
-			if !ok {
-				why = "Compare contains a loop"
-			}
-			for _, ordn := range []string{"lt", "eq", "gt"} {
-				if !ok {
-					break
-				}
-				feasible := 0
-				for _, p := range an.AllPaths() {
-					f := true
-					for _, s := range p.Events(ir.KBranch) {
-						at := s.Atom
-						var truth bool
-						switch {
-						case at.Op == "bin" && at.Aux == "<" && isA(at.Args[0]) && isB(at.Args[1]):
-							truth = ordn == "lt"
-						case at.Op == "bin" && at.Aux == "<" && isB(at.Args[0]) && isA(at.Args[1]):
-							truth = ordn == "gt"
-						case at.Op == "bin" && at.Aux == "==" && (isA(at.Args[0]) && isB(at.Args[1]) || isB(at.Args[0]) && isA(at.Args[1])):
-							truth = ordn == "eq"
-						case at.IsConst():
-							truth = at.Aux == "true"
-						default:
-							ok, why = false, "branch on something other than a comparison of the two arguments: "+short(at)
-						}
-						if truth != s.Pol {
-							f = false
-						}
-					}
-					if !ok || !f {
-						continue
-					}
-					feasible++
-					if p.Exit != ir.ExitReturn || len(p.Results) != 1 {
-						ok, why = false, "a path for ordering "+ordn+" does not return a value (panic?)"
-						continue
-					}
-					if len(calls(p)) != 0 || len(nonLocalStores(p)) != 0 {
-						ok, why = false, "Compare has side effects (calls / stores)"
-					}
-					v, isInt := p.Results[0].IntConst()
-					if !isInt || v != want[ordn] {
-						ok, why = false, fmt.Sprintf("for a %s b Compare returns %s, expected %d", map[string]string{"lt": "<", "eq": "==", "gt": ">"}[ordn], short(p.Results[0]), want[ordn])
-					}
-				}
-				if ok && feasible == 0 {
-					ok, why = false, "no path for ordering "+ordn
+	// ---- instance methods: resolved from the exported instance values, not by type name
+	seenFn := map[*ssa.Function]bool{}
+	for _, x := range [][3]string{{"pure/ord", "Int", "Compare"}, {"pure/ord", "String", "Compare"}, {"pure/eq", "Int", "Equal"}, {"pure/eq", "String", "Equal"}} {
+		sp := c.W.SSA[x[0]]
+		iname := x[0][5:] + "." + x[1]
+		k, _ := sp.Members[x[1]].(*ssa.NamedConst)
+		var m *ssa.Function
+		if k != nil {
+			if sel := c.W.Prog.MethodSets.MethodSet(k.Type()).Lookup(sp.Pkg, x[2]); sel != nil {
+				m = c.W.Prog.MethodValue(sel)
+				if m != nil && m.Origin() != nil {
+					m = m.Origin()
 				}
 			}
-			c.Check(ok, "ord-decision-tree", "ord.ord.Compare", fn.Pos(), fmt.Sprintf("%d paths evaluated under a<b, a==b, a>b", an.NPaths), "%s", why)
+			if m == nil {
+				// method of a generic named type: look it up on the origin type
+				if nt, ok := k.Type().(*types.Named); ok {
+					for i := 0; i < nt.Origin().NumMethods(); i++ {
+						if nt.Origin().Method(i).Name() == x[2] {
+							m = c.W.Prog.FuncValue(nt.Origin().Method(i))
+						}
+					}
+				}
+			}
 		}
-	}
-
-	// ---- eq.Equal
-	if p := singlePath(c, "eq-term", "eq.eq.Equal", c.W.Method("pure/eq", "eq", "Equal")); p != nil {
-		fn := c.W.Method("pure/eq", "eq", "Equal")
-		n := len(fn.Params)
-		t := p.Results[0]
-		ok := t.Op == "bin" && t.Aux == "==" && len(t.Args) == 2 &&
-			(paramOf(t.Args[0], fn, n-2) && paramOf(t.Args[1], fn, n-1) || paramOf(t.Args[0], fn, n-1) && paramOf(t.Args[1], fn, n-2)) &&
-			len(calls(p)) == 0
-		c.Check(ok, "eq-term", "eq.eq.Equal", fn.Pos(), "a == b", "Equal returns %s, expected a == b of its two arguments", short(t))
+		if m == nil || len(m.Blocks) == 0 {
+			c.Undecided("instances", iname, 0, "cannot resolve %s of the instance %s", x[2], iname)
+			continue
+		}
+		elem := ""
+		if nt, ok := k.Type().(*types.Named); ok && nt.TypeArgs().Len() == 1 {
+			elem = nt.TypeArgs().At(0).String()
+		} else if len(m.Params) >= 2 {
+			elem = m.Params[len(m.Params)-1].Type().String()
+		}
+		want := map[string]string{"Int": "int", "String": "string"}[x[1]]
+		c.Check(elem == want, "instances", iname, k.Pos(), iname+" compares "+elem, "%s compares %s values, expected %s", iname, elem, want)
+		if seenFn[m] {
+			continue
+		}
+		seenFn[m] = true
+		if x[2] == "Compare" {
+			checkCompare(c, m, cv, okConst)
+		} else {
+			checkEqual(c, m)
+		}
 	}
 
 	// ---- ContraMap
@@ -266,21 +238,90 @@ func runC17(c *core.Ctx) {
 			c.Check(ok, "monoid-combine-promoted", "monoid.monoid.Combine", obj.Pos(), "promoted from embedded Semigroup", "Combine does not resolve through the embedded Semigroup field (index path %v)", idx)
 		}
 	}
-	// instances are values of the checked generic types
-	for _, x := range [][3]string{{"pure/eq", "Int", "eq"}, {"pure/eq", "String", "eq"}, {"pure/ord", "Int", "ord"}, {"pure/ord", "String", "ord"}} {
-		sp := c.W.SSA[x[0]]
-		name := x[0][5:] + "." + x[1]
-		k, _ := sp.Members[x[1]].(*ssa.NamedConst)
-		if k == nil {
-			c.Undecided("instances", name, 0, "constant not found")
-			continue
-		}
-		nt, _ := k.Type().(*types.Named)
-		ok := nt != nil && nt.Origin().Obj().Name() == x[2] && nt.TypeArgs().Len() == 1
-		if ok {
-			b, isB := nt.TypeArgs().At(0).(*types.Basic)
-			ok = isB && (x[1] == "Int" && b.Kind() == types.Int || x[1] == "String" && b.Kind() == types.String)
-		}
-		c.Check(ok, "instances", name, k.Pos(), types.TypeString(k.Type(), nil), "%s has type %s, expected %s[%s]", name, k.Type(), x[2], map[string]string{"Int": "int", "String": "string"}[x[1]])
+
+}
+
+func fnLabel(fn *ssa.Function) string {
+	r, n := declOf(fn)
+	if r != "" {
+		return r + "." + n
 	}
+	return n
+}
+
+func checkCompare(c *core.Ctx, fn *ssa.Function, cv map[string]int64, okConst bool) {
+	if okConst {
+		an := c.Analyze(fn)
+		if !problems(c, "ord-decision-tree", "ord."+fnLabel(fn), an) {
+			a, b := fn.Params[len(fn.Params)-2], fn.Params[len(fn.Params)-1]
+			isA := func(t *ir.Term) bool { return t.Op == "param" && t.Src == ssa.Value(a) }
+			isB := func(t *ir.Term) bool { return t.Op == "param" && t.Src == ssa.Value(b) }
+			want := map[string]int64{"lt": cv["LT"], "eq": cv["EQ"], "gt": cv["GT"]}
+			ok := len(an.Headers) == 0
+			why := ""
+			if !ok {
+				why = "Compare contains a loop"
+			}
+			for _, ordn := range []string{"lt", "eq", "gt"} {
+				if !ok {
+					break
+				}
+				feasible := 0
+				for _, p := range an.AllPaths() {
+					f := true
+					for _, s := range p.Events(ir.KBranch) {
+						at := s.Atom
+						var truth bool
+						switch {
+						case at.Op == "bin" && at.Aux == "<" && isA(at.Args[0]) && isB(at.Args[1]):
+							truth = ordn == "lt"
+						case at.Op == "bin" && at.Aux == "<" && isB(at.Args[0]) && isA(at.Args[1]):
+							truth = ordn == "gt"
+						case at.Op == "bin" && at.Aux == "==" && (isA(at.Args[0]) && isB(at.Args[1]) || isB(at.Args[0]) && isA(at.Args[1])):
+							truth = ordn == "eq"
+						case at.IsConst():
+							truth = at.Aux == "true"
+						default:
+							ok, why = false, "branch on something other than a comparison of the two arguments: "+short(at)
+						}
+						if truth != s.Pol {
+							f = false
+						}
+					}
+					if !ok || !f {
+						continue
+					}
+					feasible++
+					if p.Exit != ir.ExitReturn || len(p.Results) != 1 {
+						ok, why = false, "a path for ordering "+ordn+" does not return a value (panic?)"
+						continue
+					}
+					if len(calls(p)) != 0 || len(nonLocalStores(p)) != 0 {
+						ok, why = false, "Compare has side effects (calls / stores)"
+					}
+					v, isInt := p.Results[0].IntConst()
+					if !isInt || v != want[ordn] {
+						ok, why = false, fmt.Sprintf("for a %s b Compare returns %s, expected %d", map[string]string{"lt": "<", "eq": "==", "gt": ">"}[ordn], short(p.Results[0]), want[ordn])
+					}
+				}
+				if ok && feasible == 0 {
+					ok, why = false, "no path for ordering "+ordn
+				}
+			}
+			c.Check(ok, "ord-decision-tree", "ord."+fnLabel(fn), fn.Pos(), fmt.Sprintf("%d paths evaluated under a<b, a==b, a>b", an.NPaths), "%s", why)
+		}
+	}
+
+}
+
+func checkEqual(c *core.Ctx, fn *ssa.Function) {
+	if p := singlePath(c, "eq-term", "eq."+fnLabel(fn), fn); p != nil {
+		n := len(fn.Params)
+		t := p.Results[0]
+		ok := t.Op == "bin" && t.Aux == "==" && len(t.Args) == 2 &&
+			(paramOf(t.Args[0], fn, n-2) && paramOf(t.Args[1], fn, n-1) || paramOf(t.Args[0], fn, n-1) && paramOf(t.Args[1], fn, n-2)) &&
+			len(calls(p)) == 0
+		c.Check(ok, "eq-term", "eq."+fnLabel(fn), fn.Pos(), "a == b", "Equal returns %s, expected a == b of its two arguments", short(t))
+	}
+
 }
